@@ -181,6 +181,9 @@ def install_locks(s: sched.Sched, storages: list[Any]) -> None:
             st._thread_lock = sched.SLock(s, reentrant=False)
 
 
+_TL = threading.local()
+
+
 def run_case(cfg: str, case: dict[str, Any], seed: int, tmp: str, schedule: list[int] | None = None, pct: int | None = None,
              controlled: bool = True) -> dict[str, Any]:
     """Execute one case on a fresh backend; returns the `lin` request + bookkeeping."""
@@ -216,6 +219,7 @@ def run_case(cfg: str, case: dict[str, Any], seed: int, tmp: str, schedule: list
 
         def body(th: int) -> Any:
             def f() -> None:
+                _TL.i = th
                 for ci, c in enumerate(case["calls"]):
                     if c["thread"] != th:
                         continue
@@ -231,7 +235,8 @@ def run_case(cfg: str, case: dict[str, Any], seed: int, tmp: str, schedule: list
             return f
 
         if controlled:
-            s.run([body(t) for t in range(nth)], timeout=120)
+            with fleet.same_ident_across_processes(lambda: getattr(_TL, "i", None), len(storages)):
+                s.run([body(t) for t in range(nth)], timeout=120)
             if s.errors:
                 t, e = next(iter(s.errors.items()))
                 if isinstance(e, (sched.StepLimit, sched.Deadlock)):
@@ -241,10 +246,11 @@ def run_case(cfg: str, case: dict[str, Any], seed: int, tmp: str, schedule: list
                 return {"infra": str(s.aborted), "trace": s.trace}
         else:
             ths = [threading.Thread(target=body(t)) for t in range(nth)]
-            for t in ths:
-                t.start()
-            for t in ths:
-                t.join(120)
+            with fleet.same_ident_across_processes(lambda: getattr(_TL, "i", None), len(storages)):
+                for t in ths:
+                    t.start()
+                for t in ths:
+                    t.join(120)
         # the trailing sequential calls (pseudo-thread `nth`): invoked after every thread has returned
         for ci, c in enumerate(case["calls"]):
             if c["thread"] == nth:
